@@ -13,7 +13,10 @@ let fixed = [
   "x => x"; "_ => _"; "x => _"; "(x : int) => (x : int) => x"; "x = 1; x = 2; x"; "x = x; x"; "f = (x : int) => x; g = (x : int) => x; f (g 1)";
   "a = (b = 1; b); b = 2; a + b"; "(x : int) -> x"; "(_ : int) -> _"; "x = 1; (y = 2; x + y)"; "x = y; y = 1; x"; "_ = 1; _"; "_ = 1; 2";
   "x : y = 1; y = int; x"; "i = 1; in = 2; iff = 3; i + in + iff"; "\xc3\xa9 = 1; \xc3\xa9"; "{x : type} => (y : x) => y"; "{x} => x";
-  "f = x => (y = x; y); f"; "(x => x) (x => x)"; "x = (x => x); x"; "(y = 1; y) + (y = 2; y)"; "t = int; f : t -> t = (v : t) => v; f 1" ]
+  "f = x => (y = x; y); f"; "(x => x) (x => x)"; "x = (x => x); x"; "(y = 1; y) + (y = 2; y)"; "t = int; f : t -> t = (v : t) => v; f 1";
+  (* forward references into a parenthesized trailing group: the parentheses do not end the group *)
+  "t : u = 5; (u = int; t)"; "x = y; (y = 1; x)"; "f = a => g a; (g = b => b + 1; f 41)"; "x = 1; (y = z; (z = x; y))";
+  "x : w = 1; (y = 2; (w = int; x + y))"; "x = y; (x = 1; y)"; "x = y; ((y = 1; x))"; "x = (y = z; (z = 1; y)); x" ]
 
 let gen ~(tier : string) ~(seed : int) ~(emit : Sexp.t -> unit) : unit =
   let r = Rng.make (seed * 7727 + 8) in
@@ -25,6 +28,8 @@ let gen ~(tier : string) ~(seed : int) ~(emit : Sexp.t -> unit) : unit =
     let p = Gen_prog.rename r [] [] p in
     emit (case_src (Gen_prog.to_string p));
     emit (case_src (Gen_prog.to_string (Gen_prog.perturb r p)));
+    (* the same program with redundant parentheses (around group tails among others): scoping must not see them *)
+    if i mod 3 = 0 then emit (case_src (Gen_prog.to_string_parens r (Gen_prog.perturb r p)));
     if i mod 4 = 0 then emit (case_src (Gen_prog.to_string (Gen_prog.perturb r (Gen_prog.perturb r p))))
   done
 
